@@ -238,6 +238,20 @@ func VerifC08TSDB() {
 		verifReach("contradiction")
 		return
 	}
+	// chunks of every stored series arrive exactly once and in order, however the series is split over frames
+	// (the test chunks carry their stored series and position in their bytes)
+	var nextChunk [4]int
+	for _, s := range out {
+		for ci, ch := range s.Chunks {
+			si, k := int(ch.Raw.Data[2]), int(ch.Raw.Data[3])
+			verifAssert(k == nextChunk[si], "chunks-of-a-series-in-order-across-frames")
+			verifAssert(ch.MinTime == int64(10*k), "chunk-time-range-kept")
+			nextChunk[si] = k + 1
+			if ci == 0 && k > 0 {
+				verifReach("series-split-over-frames")
+			}
+		}
+	}
 	for _, s := range out {
 		seenB := false
 		for i, l := range s.Labels {
@@ -310,3 +324,6 @@ func VerifC07TSDB() {
 	}
 	verifReach("end")
 }
+
+// VerifC08Frames: one stored series with several chunks, split over frames by the byte limit
+func VerifC08Frames() { VerifC08TSDB() }
